@@ -507,6 +507,29 @@ def run(ctx):
     r.require_min(1)
 
     # ---------------- R14f
+    # ---------------- R14m the adapters keep nothing between instances
+    r = ctx.rule('R14m', 'a back end\'s init / exit keep no state of their own between instances: they write no global (the GF tables behind their mutex are the one shared resource, R14f)',
+                 'whatever an init remembers in a static (entry points bound with dlsym, a descriptor, a table) is stale once the instance that produced it is gone: the library it '
+                 'came from is unloaded by destroy, and the next create then works - or crashes - depending on which instances existed in between')
+    from .. import effects as _eff14
+    E14 = _eff14.get(P)
+    cg14 = callgraph.get(P)
+    nio = 0
+    for slot in ('init', 'exit'):
+        for gname in sorted(set(cg14.slot_functions(slot).values())):
+            gf = P.fns.get(gname)
+            if gf is None or re.search(r'jerasure|shss|phazrio', gf.mod.src):
+                continue
+            nio += 1
+            wr = [(ins_, glob_) for ins_, glob_, kind_ in E14.global_accesses(gf) if kind_ == 'store' and 'mutex' not in glob_ and 'rwlock' not in glob_]
+            inst = f'{gname}: writes no global'
+            if wr:
+                r.fail(inst, func=gname, sig=f'{slot} stores to {wr[0][1]}', loc=wr[0][0].loc,
+                       msg=f'{gname} (the {slot} operation of a back end) stores into the global / static {wr[0][1]} at line {wr[0][0].line}: state that outlives the instance')
+            else:
+                r.ok(inst, func=gname, loc=gf.mod.src)
+    r.require_min(6)
+
     r = ctx.rule('R14f', 'GF table references: +1 on every successful RS init path, 0 on every failing one, -1 in exit; free only at count 0',
                  'an unbalanced count frees tables a live instance uses, or keeps 1 MiB forever')
     rule_refcount(ctx, P, r)
